@@ -5,3 +5,4 @@ pub mod c05;
 pub mod common;
 pub mod c06;
 pub mod c04;
+pub mod c08;
